@@ -30,12 +30,12 @@ TECHNIQUE = (
     "subprocesses"
 )
 LEVEL_TEXT = (
-    "Every history over a pool of 9 adversarially similar contractions "
+    "Every history over a pool of 10 adversarially similar contractions "
     "(index order inside a tensor / the output, one size, one relabelling, "
     "an extra scalar tensor, permuted tensors, equal-but-not-identical "
     "label objects, a different N) of length <=3, with fresh-object reloads "
-    "at every position, is executed for hash_method {a,b} x {memory, disk "
-    "split, disk flat, disk auto} x overwrite {False, True, 'improved'} x 3 "
+    "at every position, is executed for hash_method {a,b} x {memory, memory flat keys, "
+    "disk split, disk flat, disk auto, layout changes across reloads} x overwrite {False, True, 'improved'} x 3 "
     "optimizer kinds. After every step: returned tree complete and of the "
     "query asked; sliced indices and score equal to the stored entry; a "
     "repeated query returns the same order without searching (counted via "
@@ -85,6 +85,10 @@ def pool():
                          dict(b))
     P["big"] = ((("a", "b"), ("b", "c"), ("c", "d"), ("d", "e"), ("e", "a")),
                 (), {**b, "e": 2})
+    # the closed network obtained by appending a term carrying exactly the
+    # output indices of base
+    P["closed-by-output-term"] = (
+        (("a", "b"), ("b", "c"), ("c", "d"), ("a", "d")), (), dict(b))
     # same as base but every label is a distinct (equal) object
     P["nonidentical"] = (
         ((mk("a"), mk("b")), (mk("b"), mk("c")), (mk("c"), mk("d"))),
@@ -114,7 +118,7 @@ KINDS = {
                 dict(max_repeats=2, seed=0, accel=False, parallel=False)),
 }
 
-LOCS = ["memory", "disk-split", "disk-flat", "disk-auto",
+LOCS = ["memory", "memory-flat", "disk-split", "disk-flat", "disk-auto",
         "disk-flat-then-auto", "disk-split-then-auto"]
 SUB_POOL = ["base", "perm-in-tensor", "perm-output", "extra-scalar",
             "nonidentical", "size"]
@@ -157,7 +161,7 @@ class World:
         self.kind, self.hm, self.loc, self.ow = cfg
         self.cls_name, self.kw = KINDS[self.kind]
         self.dir = None
-        if self.loc != "memory":
+        if not self.loc.startswith("memory"):
             self.dir = tempfile.mkdtemp(prefix="c14-", dir=root)
         self.searches = 0
         self.opt = None
@@ -166,6 +170,8 @@ class World:
     def make(self, **extra):
         kw = dict(self.kw)
         kw.update(hash_method=self.hm, overwrite=self.ow)
+        if self.loc == "memory-flat":
+            kw["directory_split"] = False
         if self.dir is not None:
             kw["directory"] = self.dir
             first = not getattr(self, "_made_one", False)
@@ -233,7 +239,7 @@ def run_history(cfg, hist, P, root, res):
     hits = 0
     for step, ev in enumerate(hist):
         if ev[0] == "reload":
-            if w.loc == "memory":
+            if w.loc.startswith("memory"):
                 model.clear()
                 first_path.clear()
             w.reload()
@@ -304,7 +310,7 @@ def run_history(cfg, hist, P, root, res):
             n1 = w.searches
             try:
                 ro = w.make(cache_only=True, overwrite=ro_ow)
-                if w.loc == "memory":
+                if w.loc.startswith("memory"):
                     ro._cache = w.opt._cache
                 t2 = ro.search(*q)
                 for b in check_tree(t2, q):
@@ -383,9 +389,9 @@ def work(unit):
             depth = 3 if tier == "quick" else 4
             # full depth on a core pool, depth 2 on the whole pool
             core = ["base", "perm-in-tensor", "perm-output", "extra-scalar",
-                    "nonidentical"]
+                    "closed-by-output-term", "nonidentical"]
             if cfg[0] != "hyper":
-                core = core[:4]
+                core = core[:5]
             done = set()
             for hist in itertools.chain(histories(names, 2),
                                         histories(core, depth)):
